@@ -8,6 +8,11 @@ L3 : written from the property statement with `math.comb` only (no Lean, no dadi
      expected count under sampling without replacement; totals; two stages = one; any axis order; 1/i fixed point;
      a masked entry masks exactly its support; folded = fold(project(unfold)) = fold(project(S)) for F = fold(S);
      upward refused; `LowPass.projection_matrix(F=0)` rows.
+Round 6 (projection inside dadi/LowPass/LowPass.py): low-pass model functions for 1..4 populations at deep coverage against per-axis
+     exact matrices / `Spectrum.project` / relabelled populations (L3), the per-population loop of `lowpass_func` on the
+     implementation's own matrices against the translated loop `Gen.ProjLP.loopBody` run by the model (K `lowpass:axes`, theorem
+     C08_lowpass_axes), `subsample_genotypes_1D` / `simulate_GATK_multisample_calling` against exact individual-subsampling weights
+     (exact binomial tails), `projection_inbreeding` / `projection_matrix` against plain enumeration.
 """
 import math
 import numpy as np
